@@ -95,12 +95,6 @@ def parseRules : SExp → Option Rules
            mustOccur := ms, autoSort := has 's' }
   | _ => none
 
-def parseKind : SExp → Option FKind
-  | .atom "p" => some .plain
-  | .atom "o" => some .optional
-  | .atom "e" => some .embedded
-  | _ => none
-
 mutual
 def parseTy : SExp → Option Ty
   | .atom "bool" => some .bool
@@ -124,7 +118,12 @@ def parseTy : SExp → Option Ty
   | _ => none
 def parseFields : List SExp → Option Fields
   | [] => some .nil
-  | .list [k, t] :: rest => do pure (.cons (← parseKind k) (← parseTy t) (← parseFields rest))
+  | .list [.atom "p", t] :: rest => do pure (.cons false (← parseTy t) (← parseFields rest))
+  | .list [.atom "o", t] :: rest => do pure (.cons true (← parseTy t) (← parseFields rest))
+  | .list [.atom "e", .list (.atom "struct" :: _ :: fs)] :: rest => do
+    pure (.emb false (← parseFields fs) (← parseFields rest))
+  | .list [.atom "e", .list [.atom "ptr", .list (.atom "struct" :: _ :: fs)]] :: rest => do
+    pure (.emb true (← parseFields fs) (← parseFields rest))
   | _ => none
 def parseAlts : List SExp → Option Alts
   | [] => some .nil
